@@ -1,3 +1,6 @@
+; ASSUME A1: a message whose handler returns an error is reverted by the SDK (cache-wrapped store), so invariants need only be re-established on success
+; ASSUME A10: the module store is a finite map from the byte strings kbytes(k) to values; keyOf(kbytes(k)) = k and prefix scans are exact (proved at byte level in layer K for every family except earned fees, D9), for keys built from names without 0x00, 20-byte owners and non-negative heights
+; ASSUME A14: batch counters stay below 2^63 (each batch occupies at least one block and heights stay below 2^62 by A13)
 ; ---- state theory: abstraction axioms (justified by layer K, property C18) and typed views of the store.
 (assert (forall ((k Key)) (! (= (keyOf (kbytes k)) k) :pattern ((kbytes k)))))
 (assert (forall ((p Prefix)) (! (= (pfxOf (pbytes p)) p) :pattern ((pbytes p)))))
@@ -168,7 +171,8 @@
 (assert (forall ((r (Array Key Bytes)) (s (Array Key Bytes)) (p Prefix)) (! (= (clrProv r s p 0) r) :pattern ((clrProv r s p 0)))))
 (assert (forall ((r (Array Key Bytes)) (s (Array Key Bytes)) (p Prefix) (n Int)) (! (=> (> n 0) (= (clrProv r s p n) (clearPfx (clrProv r s p (- n 1)) (PEarned (kop_prov (itKey s p (- n 1))))))) :pattern ((clrProv r s p n)))))
 
-; ---- callbacks of other modules (ghost log; A7: they touch nothing of this module)
+; ASSUME A7: response and state callbacks of other modules touch nothing of this module (ghost log of invocations only)
+; ---- callbacks of other modules
 (declare-fun cbResp (CbLog Bytes (Slice Str) Bool) CbLog)
 (declare-fun cbState (CbLog Bytes Str) CbLog)
 ; non-empty outputs of the responses stored under a prefix, in key order
@@ -319,6 +323,26 @@
        (=> (not (= (select r (KNewH id)) bnil)) (not (= (select r (KNewQ (hOfVal (select r (KNewH id))) id)) bnil)))))
 (define-fun ptrAllOK ((r (Array Key Bytes))) Bool (forall ((id Bytes)) (! (ptrOK r id) :pattern ((select r (KExpH id))) :pattern ((select r (KNewH id))))))
 (define-fun schedInv ((r (Array Key Bytes))) Bool (and (ctxAllOK r) (expAllOK r) (newAllOK r) (ptrAllOK r)))
+; A14 as an axiom on stored contexts
+(assert (forall ((r (Array Key Bytes)) (id Bytes)) (! (=> (ctxFound r id) (< (RequestContext_BatchCounter (ctxOf r id)) 9223372036854775808)) :pattern ((RequestContext_BatchCounter (dec_RequestContext (select r (KCtx id))))))))
+; ---- I_cad (C10): ghostMaxTot[id] is an arbitrary (universally quantified) record of "the largest total that was ever in force"
+; for context id, an unlimited total (-1) counting as infinity; maxNext is its value after a step that leaves store r
+(declare-const ghostMaxTot (Array Bytes Int))
+(define-fun effTotal ((c RequestContext)) Int (ite (< (RequestContext_RepeatedTotal c) 0) 18446744073709551616 (RequestContext_RepeatedTotal c)))
+(declare-fun maxNext ((Array Bytes Int) (Array Key Bytes)) (Array Bytes Int))
+(assert (forall ((M (Array Bytes Int)) (r (Array Key Bytes)) (id Bytes)) (! (= (select (maxNext M r) id)
+   (ite (and (ctxFound r id) (RequestContext_Repeated (ctxOf r id)) (> (effTotal (ctxOf r id)) (select M id))) (effTotal (ctxOf r id)) (select M id))) :pattern ((select (maxNext M r) id)))))
+(define-fun cadOK ((r (Array Key Bytes)) (M (Array Bytes Int)) (id Bytes)) Bool
+  (=> (ctxFound r id)
+      (and ; the record dominates the total in force
+           (=> (RequestContext_Repeated (ctxOf r id)) (<= (effTotal (ctxOf r id)) (select M id)))
+           ; a repeated context never got more batches than the largest total ever in force; a one-shot never more than one
+           (ite (RequestContext_Repeated (ctxOf r id)) (<= (RequestContext_BatchCounter (ctxOf r id)) (select M id)) (<= (RequestContext_BatchCounter (ctxOf r id)) 1))
+           ; and a queued next batch will not break that
+           (=> (not (= (select r (KNewH id)) bnil))
+               (ite (RequestContext_Repeated (ctxOf r id)) (< (RequestContext_BatchCounter (ctxOf r id)) (select M id)) (= (RequestContext_BatchCounter (ctxOf r id)) 0))))))
+(define-fun cadInv ((r (Array Key Bytes)) (M (Array Bytes Int))) Bool
+  (forall ((id Bytes)) (! (cadOK r M id) :pattern ((select r (KCtx id))) :pattern ((select r (KNewH id))))))
 ; no scheduled event lies before height H
 (define-fun futInv ((r (Array Key Bytes)) (H Int)) Bool
   (and (forall ((h Int) (id Bytes)) (! (=> (not (= (select r (KExpQ h id)) bnil)) (>= h H)) :pattern ((select r (KExpQ h id)))))
